@@ -2,7 +2,7 @@
 from vlib import *
 from gens import *
 LEVEL = 'model_checking'
-BACKENDS_Q = ['rel', 'c64', 'c32', 'dxor', 'generic']
+BACKENDS_Q = ['rel', 'c64', 'c32', 'dxor', 'generic', 'chk']
 
 def states(rng, n):
     out = [bytes(40), bytes([255] * 40), bytes(range(40)), bytes((i * 17 + 3) & 255 for i in range(40))]
